@@ -60,3 +60,4 @@ Example C06_example :
   map (fun x => fires (snd x)) (snd (run_cache Z.eq_dec (-1) m0 ops)) =
     [[]; []; []; [(1%nat, 1, 7)]; [(1%nat, 2, 8)]; []; []].
 Proof. vm_compute. reflexivity. Qed.
+Print Assumptions C06_example.
